@@ -21,6 +21,10 @@ pub struct ReplayFile {
     pub violation: Option<Violation>,
     pub minimised: bool,
     pub note: String,
+    /// where in its batch the last scenario ran: (first index of the worker's range, own index,
+    /// yields disabled) - lets the parent rebuild the whole in-process history if needed
+    #[serde(default)]
+    pub origin: Option<(u64, u64, bool)>,
 }
 
 pub fn rle(d: &[u8]) -> Vec<(u8, u32)> {
@@ -181,19 +185,35 @@ pub struct Shrinker {
     pub tmp_path: String,
     pub evals: u32,
     pub log: Vec<String>,
+    /// the violation needs a particular interleaving (the sequential schedule does not show it):
+    /// candidates are then also re-searched under fresh schedule seeds
+    pub schedule_sensitive: bool,
 }
+
+const RESEARCH_SALTS: u64 = 24;
 
 impl Shrinker {
     /// Does the candidate still show the same violation class, in a fresh process? Tries the
     /// sequential schedule first, then the inherited decision list (leniently).
     fn test(&mut self, cand: &ReplayFile) -> Option<ReplayFile> {
-        for mode in ["sequential", "lenient"] {
+        let last = cand.scenarios.len() - 1;
+        let mut attempts: Vec<(&str, u64)> = vec![("sequential", 0), ("lenient", 0)];
+        if self.schedule_sensitive && cand.scenarios[last].threads.len() >= 2 {
+            for k in 1..=RESEARCH_SALTS {
+                attempts.push(("seeded", k));
+            }
+        }
+        for (mode, salt) in attempts {
             self.evals += 1;
-            save(&self.tmp_path, cand);
+            let mut c = cand.clone();
+            if mode == "seeded" {
+                c.scenarios[last].sched_salt = salt;
+            }
+            save(&self.tmp_path, &c);
             if let Ok(o) = exec_file_fresh(&self.tmp_path, mode) {
                 if let Some(v) = &o.violation {
-                    if v.same_class(&self.target) && o.scenario_index == Some(cand.scenarios.len() - 1) {
-                        let mut ok = cand.clone();
+                    if v.same_class(&self.target) && o.scenario_index == Some(last) {
+                        let mut ok = c.clone();
                         ok.decisions = o.decisions.clone();
                         ok.violation = Some(v.clone());
                         return Some(ok);
@@ -206,6 +226,13 @@ impl Shrinker {
 
     pub fn shrink(&mut self, start: ReplayFile) -> ReplayFile {
         let mut best = start;
+        {
+            // does the plain sequential schedule (each thread runs to its end) already show it?
+            self.evals += 1;
+            save(&self.tmp_path, &best);
+            let seq_ok = matches!(exec_file_fresh(&self.tmp_path, "sequential"), Ok(o) if o.violation.as_ref().map(|v| v.same_class(&self.target)).unwrap_or(false));
+            self.schedule_sensitive = !seq_ok;
+        }
         // 0. only the last scenario, if that is enough
         if best.scenarios.len() > 1 {
             let mut c = best.clone();
@@ -214,18 +241,28 @@ impl Shrinker {
             if let Some(ok) = self.test(&c) {
                 best = ok;
             } else {
-                // drop earlier scenarios one at a time (from the front)
-                let mut i = 0;
-                while i + 1 < best.scenarios.len() {
-                    let mut c = best.clone();
-                    c.scenarios.remove(i);
-                    if i < c.decisions.len() {
-                        c.decisions.remove(i);
+                // drop earlier scenarios, ddmin style (chunks halving down to single scenarios);
+                // the last scenario always stays
+                let mut chunk = ((best.scenarios.len() - 1) / 2).max(1);
+                loop {
+                    let mut i = 0;
+                    while i + 1 < best.scenarios.len() {
+                        let hi = (i + chunk).min(best.scenarios.len() - 1);
+                        let mut c = best.clone();
+                        c.scenarios.drain(i..hi);
+                        let dhi = hi.min(c.decisions.len());
+                        if i < dhi {
+                            c.decisions.drain(i..dhi);
+                        }
+                        match self.test(&c) {
+                            Some(ok) => best = ok,
+                            None => i += chunk,
+                        }
                     }
-                    match self.test(&c) {
-                        Some(ok) => best = ok,
-                        None => i += 1,
+                    if chunk == 1 {
+                        break;
                     }
+                    chunk = (chunk / 2).max(1);
                 }
             }
         }
@@ -314,6 +351,19 @@ impl Shrinker {
                 }
             }
             j += 1;
+        }
+        // 3c. yield sites: switch off every site the violation does not need
+        if best.scenarios[last].yield_mask != 0 {
+            for bit in 0..32u32 {
+                if best.scenarios[last].yield_mask & (1 << bit) == 0 {
+                    continue;
+                }
+                let mut c = best.clone();
+                c.scenarios[last].yield_mask &= !(1 << bit);
+                if let Some(ok) = self.test(&c) {
+                    best = ok;
+                }
+            }
         }
         // 4. repeats: 1 if possible, else binary search for the smallest count that still fails
         for t in 0..best.scenarios[last].threads.len() {
